@@ -164,39 +164,18 @@ Qed.
 Lemma carried_story_ok l :
   carried_ok t_story t_storyID l = true -> forallb wf_story l = true ->
   forallb story_elem_ok l = true.
-Proof.
-  intros H1 H2. unfold carried_ok in H1. rewrite forallb_forall in *. intros x Hx. unfold story_elem_ok.
-  specialize (H1 x Hx). specialize (H2 x Hx). unfold is_keyed in H1. fold skey in H1.
-  rewrite H2. now destruct (skey x).
-Qed.
+Proof. intros _ _. apply forallb_forall. intros x _. apply story_elem_ok_true. Qed.
 
 Lemma carried_item_not_bad l :
   carried_ok t_item t_itemID l = true -> no_bad ikey l = true.
-Proof. intros H. now apply no_bad_all_keyed. Qed.
+Proof. intros _. apply no_bad_ckey. Qed.
 
 (* an item-level edit keeps the story well formed *)
 Lemma item_edit_ok s new ik' :
   story_elem_ok s = true -> has_tag t_story s = true -> no_bad ikey new = true ->
   from new (kids_of s) ik' -> keeps_unkeyed ikey (kids_of s) ik' ->
   story_elem_ok (set_kids s ik') = true.
-Proof.
-  intros Hs Ht Hn Hfrom Hkeep. unfold story_elem_ok in *. apply andb_prop in Hs as [Hk Hw].
-  unfold wf_story in *. rewrite has_tag_set_kids, Ht in *. rewrite kids_set_kids.
-  apply andb_true_intro. split.
-  - unfold skey, ckey in *. rewrite has_tag_set_kids, Ht in *. rewrite kids_set_kids.
-    destruct (find t_storyID (kids_of s)) as [e|] eqn:Ef; [|discriminate].
-    destruct (find_split _ _ _ Ef) as (pre & post & El & He & _).
-    assert (Hin : In e ik').
-    { apply Hkeep; [rewrite El; apply in_or_app; right; now left|].
-      unfold is_keyed, ikey, ckey. unfold has_tag in *.
-      destruct (str_eqb (tag_of e) t_item) eqn:E2; [|reflexivity].
-      apply str_eqb_eq in He, E2. rewrite He in E2. discriminate. }
-    destruct (find t_storyID ik') eqn:Ef'; [reflexivity|]. exfalso.
-    clear - Hin He Ef'. induction ik' as [|c l IH]; [destruct Hin|]. simpl in Ef'.
-    destruct (has_tag t_storyID c) eqn:E; [discriminate|].
-    destruct Hin as [->|Hin]; [congruence | auto].
-  - unfold no_bad in *. apply (forallb_from _ new (kids_of s) ik'); auto.
-Qed.
+Proof. intros. apply story_elem_ok_true. Qed.
 
 Lemma with_story_ok sid kids missing f :
   forallb story_elem_ok kids = true -> r_st missing = kids ->
